@@ -84,6 +84,14 @@ CHECKS = {
             'subset also as workbook constants and formula literals; 15-significant-digit extras with digit counts -3..15; '
             'percent of every grid number and of the integers -2000..2000 from all three sources',
             'trusted: decimal module; repr(double) as the decimal a double stands for', 'DESIGN.md section 2 C16'),
+    'C15': ('bounded-exhaustive enumeration of (year, month, day) boxes, day pairs, month offsets and holiday subsets on the real '
+            'pipeline against datetime/calendar arithmetic; environment-answer enumeration of the clock for TODAY',
+            'DATE over 8 years x months -30..40 x days -70..100 (-400..420 thorough) with YEAR/MONTH/DAY, plus the boundary box as '
+            'constants and literals; EDATE/EOMONTH for the days of 2019-2024 x offsets -60..60; DATEDIF D/M/Y/YM for all ordered '
+            'day pairs of 2019-2024 (quick: every 5th day + month ends + leap days); NETWORKDAYS for all 4900 ordered pairs of a '
+            '10-week window x 31 holiday subsets; TODAY under 10 injected clock answers (local instant, UTC offset)',
+            'trusted: datetime/calendar modules; the clock shim replaces the datetime module of the generated namespace',
+            'DESIGN.md section 2 C15'),
 }
 
 PENDING_REASON = 'check not built yet in this session; see DESIGN.md section 2 for the planned model-checking approach'
